@@ -2,8 +2,15 @@
 
 Exhaustive enumeration (no sampling) of
 
-    grid x state kind x noise kind x interpretation x solver        (one *case*)
+    grid x state kind x noise kind x initial-state kind x interpretation x solver     (one *case*)
       x dt x steps x generator seed                                 (looped inside the worker)
+
+Initial-state kinds: generic (seeded), identically zero, non-zero constant, mixed (every other entry
+exactly zero).  The special ones are combined with the noise kinds in which the state enters the noise
+(var = v0 u^2; var = g0 + g2 u^2, whose derivative vanishes at u = 0; var = v0 u^2 with the drift
+du/dt = 0.3 - 0.5 u, where variance and derivative vanish at the start but not later) and with scalar
+additive noise; for them only the update and the generator state are compared ("light").  The statement
+draws once per step whatever the variance is at that step; so does the oracle.
 
 on the numpy backend, compared with an independent re-implementation of the documented update
 that uses the *replicated generator* (``np.random.default_rng(seed).standard_normal(data.shape)``
@@ -1007,8 +1014,10 @@ def main(run):
                                compiled="one dt per case, steps 1-3, seeds 0-2")
     return (
         "all (grid incl. non-uniform cell volumes, state kind scalar/vector/tensor/mixed-rank collection, noise kind "
-        "0/scalar/per-component/per-field array,list,dict/field-dependent v0 u^2 with and without derivative/1e-15, "
-        "interpretation, solver euler/milstein/implicit) x dt x steps x seed: final state vs the documented update with the "
+        "0/scalar/per-component/per-field array,list,dict/field-dependent v0 u^2 with and without derivative, g0 + g2 u^2, "
+        "v0 u^2 with affine drift/1e-15, initial state generic and - for scalar and field-dependent noise - zero/constant/"
+        "every-other-entry-zero, interpretation, solver euler/milstein/implicit) x dt x steps x seed: final state vs the "
+        "documented update with the "
         "replicated generator, generator state (one draw per step), bitwise reproducibility (re-assigned generator, integer seed, "
         "sequential single-step solves), zero-variance components bitwise deterministic, seeds differ; the same on the numba "
         "backend (interpreted, legacy generator) and for compiled steppers (numba generator); predefined SDE classes; "
